@@ -238,6 +238,25 @@ theorem c02_union_write_exactly_one (d : Defs) (n : Nat) (t : Ty) (nm : String) 
   simp only [hres, hsd]
   rw [if_pos ⟨hu, hbad⟩]
 
+/-- "Exactly one field for a union", at ANY DEPTH. A value that contains — at a position reachable through
+list / set / map elements and through the struct fields the emitted `Write` writes: nested in a struct,
+exception, union, args / result struct, or container — a union with no field or with two or more fields
+set (`HasBadUnion`) is never written: `Write` does not succeed on it, whatever else the value looks like;
+and when the value is otherwise what the emitted Go types can hold (`WTU`: well-typed apart from the
+union counts) the outcome is exactly the error INVALID_DATA — no panic, no other error. -/
+theorem c02_write_rejects_bad_union (d : Defs) (n : Nat) (t : Ty) (v : Val) (hb : HasBadUnion d n t v) :
+    (∀ es, encV d n t v ≠ .ok es) ∧ (WTU d n t v → encV d n t v = .err .invalidData) := by
+  refine ⟨fun es => enc_bad_union_not_ok d n t v es hb, fun hw => ?_⟩
+  rcases enc_okOrInvalid d n t v hw with ⟨es, hes⟩ | he
+  · exact absurd hes (enc_bad_union_not_ok d n t v es hb)
+  · exact he
+
+/-- Every well-typed value is well-typed apart from the union counts, so the two cases are exhaustive on
+what the harness builds: `Write` succeeds on the well-formed values (`enc_total`) and returns
+INVALID_DATA on those with a bad union somewhere. -/
+theorem c02_wt_is_wtu (d : Defs) (n : Nat) (t : Ty) (v : Val) (h : WT d n t v) : WTU d n t v :=
+  WT.toWTU d n t v h
+
 /-- Whatever the stream, when `Read` of a struct-like succeeds every required field has been
 read and a union holds exactly one set field (`acc` = the fields that arrived; set = arrived and,
 for a non-pointer field with a default, different from it) — i.e. a stream in which a required
@@ -347,6 +366,26 @@ example : decV exDefs 8 (.struct "m/Outer")
       .fb "c" 8 8, .i32 5, .fe, .fs, .se]
     = .ok (.struct [(1, .list []), (3, .map [(.bytes [107], .list [.struct [(1, .bytes [97]), (3, .int 7)]])])], []) := by
   decide +kernel
+
+/-! Non-vacuity of `c02_write_rejects_bad_union`: a union with two fields set inside a list inside a
+struct, and an empty union as a struct field of an exception. -/
+def exDefsU : Defs :=
+  { typedefs := [], enums := [],
+    structs := [⟨.union, "m/U", "U", [⟨1, .optional, "a", .i32, none⟩, ⟨2, .optional, "b", .string, none⟩]⟩,
+                ⟨.struct, "m/H", "H", [⟨1, .default, "l", .list (.struct "m/U"), none⟩, ⟨2, .default, "seq", .i32, none⟩]⟩,
+                ⟨.exception, "m/X", "X", [⟨1, .default, "u", .struct "m/U", none⟩]⟩] }
+
+def exBadVal : Val := .struct [(1, .list [.struct [(1, .int 3)], .struct [(1, .int 3), (2, .bytes [120])]]), (2, .int 3)]
+
+example : HasBadUnion exDefsU 8 (.struct "m/H") exBadVal ∧ WTU exDefsU 8 (.struct "m/H") exBadVal := by
+  constructor
+  · simp [HasBadUnion, exDefsU, exBadVal, resolve, resolveN, lookupStruct, lookupVal, isSetIn, isSetVal, cmpDflt]
+  · simp [WTU, exDefsU, exBadVal, resolve, resolveN, lookupStruct, lookupVal]
+
+example : encV exDefsU 8 (.struct "m/H") exBadVal = .err .invalidData := by decide
+
+example : HasBadUnion exDefsU 8 (.struct "m/X") (.struct [(1, .struct [])]) := by
+  simp [HasBadUnion, exDefsU, resolve, resolveN, lookupStruct, lookupVal, isSetIn, isSetVal, cmpDflt]
 
 /-! ## Down to the bytes: the binary and the compact protocol
 
